@@ -973,27 +973,29 @@ def evaluate(rec, canon, hist=None):
                     problems.append((f"output-differs:{f}:{op}", f"{where}: {f} has digest {own[f][0]}, the first run of this "
                                      f"program produced {want[f]}", j))
         else:  # check, checkdiag, editcheck
+            # what a normal run with the same flags would rewrite: the three files that go through AppWriter, plus the
+            # diagnostics file when `--diagnostics` is given
             stale = [f for f in CHECKED_BY_WRITER if b[f][0] != want[f]]
-            diag_stale = op == "checkdiag" and b["diag"][0] != want["diag"]
+            if op == "checkdiag" and b["diag"][0] != want["diag"]:
+                stale.append("diag")
             modified = [f for f in FILES if a[f] != b[f]]
             expected = 1 if stale else 0
+            wrote_diag = op == "checkdiag" and modified == ["diag"]
             hist[f"{op}:expected-exit{expected}:got-exit{st['exit']}" + (f":modified-{'+'.join(modified)}" if modified else "")] += 1
-            if modified == ["diag"] and op == "checkdiag":
+            if wrote_diag:
                 problems.append(("check-writes-diagnostics-file",
                                  f"{where}: `--check --diagnostics <file>` {'created' if b['diag'][0] is None else 'rewrote'} the "
-                                 f"diagnostics file ({b['diag'][0]} -> {a['diag'][0]}) and exited {st['exit']}; `--check` must never "
-                                 "modify a file and must fail when a normal run would change one", j))
+                                 f"diagnostics file ({b['diag'][0]} -> {a['diag'][0]}) and exited {st['exit']} (a normal run would "
+                                 f"change {stale}); `--check` must never modify a file and must fail when a normal run would change one", j))
             elif modified:
                 problems.append((f"check-modifies-file:{'+'.join(modified)}", f"{where}: `--check` changed {modified}: "
                                  f"{[(f, b[f], a[f]) for f in modified]}", j))
             if st["exit"] not in (0, 1):
                 problems.append((f"check-exit:status-{st['exit']}", f"{where}: exit {st['exit']}: {st.get('stderr', '')[-400:]}", j))
-            elif st["exit"] != expected:
+            elif st["exit"] != expected and not (wrote_diag and stale == ["diag"]):
+                # (exit 0 with only the diagnostics file stale is the same defect as writing it: one key)
                 problems.append((f"check-exit:expected{expected}-got{st['exit']}",
                                  f"{where}: a normal run would change {stale or 'nothing'}, `--check` exited {st['exit']}", j))
-            elif diag_stale and not stale and st["exit"] == 0 and "diag" not in modified:
-                problems.append(("check-exit0-with-stale-diagnostics", f"{where}: diagnostics file is stale, `--check "
-                                 "--diagnostics` exited 0", j))
     return problems
 
 
